@@ -46,7 +46,7 @@ func c06R3only(c *Ctx, r *Report, rule, prefix string) {
 	r.rule(rule, "need-more propagation for the reads of the TLS matcher (C06.R3) and no use of the buffered-bytes view outside reviewed places (C06.R4)", 3)
 	for _, o := range tmp.Obls {
 		parts := strings.SplitN(o.Key, "|", 3)
-		if len(parts) == 3 && (strings.HasPrefix(parts[1], prefix) || (o.Rule == "Y" && !o.OK)) {
+		if len(parts) == 3 && strings.HasPrefix(parts[1], prefix) {
 			if o.OK {
 				r.ok(rule, parts[1], parts[2], o.Pos, o.Detail)
 			} else {
